@@ -276,7 +276,27 @@ func runC17(c *Ctx) {
 		return ref, nil
 	})
 	try("sorting_writer_reuse", func() ([]byte, error) {
-		sortOpts := append([]parquet.WriterOption{parquet.SortingWriterConfig(parquet.SortingColumns(parquet.Ascending("id")))}, os.Opts...)
+		// 1-2 sort keys among the non-repeated leaves, any direction and null placement (the key of F42 was not the first leaf)
+		var keys []parquet.SortingColumn
+		schema := te.ops.Schema()
+		for _, p := range schema.Columns() {
+			if lf, ok := schema.Lookup(p...); ok && lf.MaxRepetitionLevel == 0 && len(keys) < 2 && r.P(30) {
+				k := parquet.Ascending(p...)
+				if r.Bool() {
+					k = parquet.Descending(p...)
+				}
+				if r.Bool() {
+					k = parquet.NullsFirst(k)
+				}
+				keys = append(keys, k)
+			}
+		}
+		if len(keys) == 0 {
+			keys = append(keys, parquet.Ascending("id"))
+		} else {
+			c.Obs("sorting_writer_other_keys", 1)
+		}
+		sortOpts := append([]parquet.WriterOption{parquet.SortingWriterConfig(parquet.SortingColumns(keys...))}, os.Opts...)
 		run := gen.Pick(r, []int64{1, 7, 100})
 		one := func(w gsortingwriter, rows reflect.Value) error {
 			if _, err := te.ops.SortingWrite(w, rows); err != nil {
